@@ -100,6 +100,28 @@ _MSG = [
 ]
 
 
+_VTYPES = ("float", "onoff", "datetime", "-")
+_QUOTED = re.compile(r"'([^']*)'", re.S)
+_INT = re.compile(r"(?<![\w.])(\d+)(?![\w.])")
+
+
+def _by_naming_parts(s):
+    """classify a fixer message by the parts that NAME the defect, whatever the words around them:
+    an illegal cell    quotes the value text and (later) the vtype        -> ["illegal", vtype, value]
+    a duplicate name   quotes the column name (and the table) and carries a position number -> ["dup", name, pos]
+    a short row        carries a row number and quotes at most the table  -> ["missing", row]"""
+    quoted = _QUOTED.findall(s)
+    vt = [q.strip() for q in quoted[1:] if q.strip() in _VTYPES]
+    if vt:
+        return ["illegal", vt[0], quoted[0]]
+    ints = _INT.findall(_QUOTED.sub("''", s))
+    if ints and len(quoted) >= 2:
+        return ["dup", quoted[0], int(ints[0])]
+    if ints:
+        return ["missing", int(ints[0])]
+    return None
+
+
 def canon_msgs(messages):
     out = []
     for s in messages:
@@ -109,7 +131,7 @@ def canon_msgs(messages):
                 out.append(f(m))
                 break
         else:
-            out.append(["unparsed", s[:60]])
+            out.append(_by_naming_parts(s) or ["unparsed", s[:60]])
     return out
 
 
